@@ -16,6 +16,7 @@ import (
 
 	"github.com/openfga/openfga/pkg/server"
 	"github.com/openfga/openfga/pkg/storage/memory"
+	"github.com/openfga/openfga/pkg/storage/sqlcommon"
 	"github.com/openfga/openfga/pkg/typesystem"
 
 	"github.com/openfga/openfga/pkg/encoder"
@@ -92,6 +93,25 @@ func gen(r *hx.Rand, n int, tier string, emit func(string), st *hx.Stats) {
 		}
 		emit(fmt.Sprintf("rcgate %s %s %d %s %d", pat, hx.HS(strings.ReplaceAll(issue, "-", "")), 1+c.Intn(2), hx.HS(strings.ReplaceAll(present, "-", "")), c.Intn(6)))
 		st.Inc("rcgate")
+	}
+	// the SQL datastores' own position serializer: every valid-UTF-8 position / type filter must round-trip
+	nsql := 150
+	if tier == "thorough" {
+		nsql = 5000
+	}
+	pool := []rune{'a', 'Z', '0', '|', '"', '\\', '/', ' ', 0x7, 0x1b, 0x7f, 0xe9, 0x2028, 0xfffd, 0x1fae8, 0xe0001, 0xf0000, 0x10ffff, '<', '&', '%'}
+	for i := 0; i < nsql; i++ {
+		c := r.Fork()
+		mk := func(max int) string {
+			n := c.Intn(max + 1)
+			rs := make([]rune, n)
+			for j := range rs {
+				rs[j] = pool[c.Intn(len(pool))]
+			}
+			return string(rs)
+		}
+		emit(fmt.Sprintf("sqlser %s %s", hx.HS(mk(6)), hx.HS(mk(8))))
+		st.Inc("sqlser")
 	}
 	// concurrent issuing through one shared encoder
 	emit(fmt.Sprintf("conc %s 16 400", hx.H(randBytes(r.Fork(), 10))))
@@ -232,6 +252,17 @@ func exec(line string, st *hx.Stats) string {
 			return same + " rej"
 		}
 		return same + " acc " + hx.H(d2)
+	case "sqlser":
+		sser := sqlcommon.NewSQLContinuationTokenSerializer()
+		tok, err := sser.Serialize(string(hx.MustUnH(f[1])), string(hx.MustUnH(f[2])))
+		if err != nil {
+			return "sererr"
+		}
+		u2, t2, err := sser.Deserialize(string(tok))
+		if err != nil {
+			return "deserr"
+		}
+		return "ok " + hx.HS(u2) + " " + hx.HS(t2)
 	case "rcgate":
 		pages, _ := strconv.Atoi(f[3])
 		mut, _ := strconv.Atoi(f[5])
